@@ -41,6 +41,9 @@ def gen_case(rng, tier, index):
     op = {"op": "combinations", "n": n, "replacement": rng.random() < 0.4, "axis": axis, "keys": None}
     if rng.random() < 0.2:
         op["keys"] = ["k%d" % i for i in range(n)]
+    na = cc.maybe_negaxis(rng, T)
+    if na:
+        return {"T": T, "layout": d, "op": dict(op, axis=na[0]), "negaxis": na[1], "depth": None, "nlev": nlev}
     return {"T": T, "layout": d, "op": op, "depth": None if branches else hi, "nlev": nlev}
 
 
@@ -59,6 +62,10 @@ def run_case(ctx, case):
     ctx.cover("axis", op["axis"])
     for k in model.classes(d):
         ctx.cover("input_classes", k)
+
+    if "negaxis" in case:
+        ctx.nontrivial(len(v) > 0)
+        return cc.check_negaxis(ctx, b, h, case, out)
 
     def expected():
         e = oracles.combinations(v, op["n"], op["replacement"], op["axis"], depth)
@@ -92,6 +99,8 @@ def classify(vio):
 
 
 def signature(vio):
+    if vio["kind"] == "negative-axis-differs":
+        return cc.negaxis_signature(vio)
     return vio["kind"] if vio["kind"] in ("wrong-value", "unexpected-error", "missing-error") else None
 
 
